@@ -25,6 +25,14 @@ MAX_CALL_DEPTH = 60
 MAX_LOOP_UNROLL = 400
 
 
+class _nullctx:
+    def __enter__(self):
+        return self
+
+    def __exit__(self, *a):
+        return False
+
+
 class ReturnSig(Exception):
     def __init__(self, value):
         self.value = value
@@ -195,6 +203,7 @@ class Interp:
         self.ext = models.external_modules(self)
         self.builtins = models.builtins(self)
         self.trace_calls = []
+        self.mutlog = []
 
     def set_ctx(self, ctx):
         self.ctx = ctx
@@ -464,6 +473,7 @@ class Interp:
             raise
 
     def setattr(self, v, name, val):
+        self.mutlog.append(v)
         if isinstance(v, Obj):
             a, _ = v.cls.lookup(name)
             if isinstance(a, PropertyV):
@@ -697,11 +707,8 @@ class Interp:
 
     def st_For(self, st, env):
         it = self.eval(st.iter, env)
-        hook = getattr(self, 'loop_hook', None)
-        if hook is not None:
-            r = hook(self, st, it, env)
-            if r is not UNBOUND:
-                return
+        if isinstance(it, GenArr):
+            return self._for_map_rule(st, it, env)
         items = self.iterate(it, live=True)
         n = 0
         broke = False
@@ -720,6 +727,105 @@ class Interp:
                 continue
         if not broke:
             self.exec_block(st.orelse, env)
+
+    # ---- derived loop rule: map ------------------------------------------
+    def _for_map_rule(self, st, it, env):
+        """`acc = []; for x in xs: ...; acc.append(e(x))` over a sequence of
+        symbolic length n  ==>  acc = [e(x) for x in xs]  (an instance of
+        induction on n).  Side conditions, checked on a generic iteration:
+        the body appends exactly once to each accumulator, writes nothing
+        else that outlives the iteration, does not fork, break, continue or
+        return."""
+        if st.orelse:
+            raise Unsupported('for/else over a symbolic-length sequence')
+        accs = {k: v for k, v in env.vars.items()
+                if isinstance(v, list) and len(v) == 0}
+        if not accs:
+            raise Unsupported('loop over a symbolic-length sequence without '
+                              'an empty list accumulator (map rule)')
+        before = dict(env.vars)
+        pre_ids = self._reachable_ids(env)
+        acc_ids = {id(v) for v in accs.values()}
+        ctx = self.ctx
+        i0 = ctx.fresh('i', 'int')
+        m0 = len(self.mutlog)
+        with ctx.assuming(z3.And(i0 >= 0, i0 < it.n)):
+            self.assign(st.target, it.elem(i0), env)
+            try:
+                self.exec_block(st.body, env)
+            except (BreakSig, ContinueSig, ReturnSig):
+                raise Unsupported('break/continue/return in a loop over a '
+                                  'symbolic-length sequence')
+        for obj in self.mutlog[m0:]:
+            if id(obj) in pre_ids and id(obj) not in acc_ids:
+                raise Unsupported('loop body mutates state that outlives '
+                                  'the iteration (map rule does not apply)')
+        target_names = set(_target_names(st.target))
+        for k, v in before.items():
+            if k in target_names:
+                continue
+            if env.vars.get(k) is not v:
+                raise Unsupported('loop body reassigns %r (loop-carried '
+                                  'dependency; map rule does not apply)' % k)
+        used = {}
+        for k, lst in accs.items():
+            if len(lst) == 0:
+                continue
+            if len(lst) != 1:
+                raise Unsupported('accumulator %r appended %d times per '
+                                  'iteration' % (k, len(lst)))
+            used[k] = lst
+        for k, lst in used.items():
+            del lst[:]
+        for k, lst in used.items():
+            def elem(j, k=k, lst=lst):
+                saved = {kk: list(l) for kk, l in used.items()}
+                saved_vars = dict(env.vars)
+                for kk, l in used.items():
+                    del l[:]
+                    env.vars[kk] = l
+                cenv = env
+                try:
+                    with ctx.assuming(z3.And(j >= 0, j < it.n)) if not \
+                            isinstance(j, int) else _nullctx():
+                        self.assign(st.target, it.elem(j), cenv)
+                        self.exec_block(st.body, cenv)
+                    val = lst[-1]
+                finally:
+                    for kk, l in used.items():
+                        l[:] = saved[kk]
+                    env.vars.clear()
+                    env.vars.update(saved_vars)
+                return val
+            g = GenArr(it.n, elem)
+            for name, v in list(env.vars.items()):
+                if v is lst:
+                    env.vars[name] = g
+
+    def _reachable_ids(self, env):
+        seen = set()
+        stack = []
+        e = env
+        while e is not None:
+            stack.extend(e.vars.values())
+            e = e.parent
+        while stack:
+            v = stack.pop()
+            if isinstance(v, (list, dict, NDArr, Obj, set)):
+                if id(v) in seen:
+                    continue
+                seen.add(id(v))
+                if isinstance(v, list):
+                    stack.extend(v)
+                elif isinstance(v, dict):
+                    stack.extend(v.values())
+                elif isinstance(v, Obj):
+                    stack.extend(v.fields.values())
+                elif isinstance(v, NDArr) and isinstance(v.data, list):
+                    seen.add(id(v.data))
+            elif isinstance(v, tuple):
+                stack.extend(v)
+        return seen
 
     def st_While(self, st, env):
         n = 0
@@ -996,6 +1102,7 @@ class Interp:
         raise_('KeyError', key)
 
     def setitem(self, obj, idx, v):
+        self.mutlog.append(obj)
         if isinstance(obj, list):
             if isinstance(idx, slice):
                 obj[self._slice(idx, len(obj))] = list(self.iterate(v))
@@ -1027,6 +1134,7 @@ class Interp:
         raise Unsupported('item assignment on %r' % type(obj))
 
     def delitem(self, obj, idx):
+        self.mutlog.append(obj)
         if isinstance(obj, dict):
             hk = _hk(idx)
             if hk in obj:
